@@ -63,4 +63,8 @@ CHECKS = {
         text='Bounded exhaustive checking with a solver completeness certificate: every sequence of 3-4 statements from 9 kinds x 8 forms of skip_unknown is parsed by the real code; the binding store must equal the reference obtained by deleting skipped statements (placeholders compared by selector and evaluate), uncovered unknowns raise the same error class as without skipping, known bindings are applied (for all integer values), placeholders raise when used and at finalize.',
         note=X_NOTE + ' Static registration only; dynamic registration is covered by the C19 fixture harness where stated.',
         technique='CrossHair/z3 exhaustive path exploration over statement-kind sequences and skip_unknown forms; reference = text deletion model'),
+    'C17': dict(
+        text='Bounded model checking of exception propagation through the real wrapper and proxy code: 25 exception classes (16 builtin families incl. ExceptionGroup, 7 user classes with required __init__/__new__ arguments, extra attributes, __slots__, custom __str__, properties) x 5 ways of raising (direct, nested, while evaluating a reference, under scopes); the caught object must be catchable by the original class, keep the original traceback frames and read equal on every public non-callable attribute of the original for ALL integer payloads; message = original text + suffix naming configurable and scope (concrete payloads); non-Exception BaseExceptions arrive as the very object.',
+        note=X_NOTE + ' One listed known finding (class whose __new__ arguments cannot be recovered from .args is re-raised without the message suffix).',
+        technique='CrossHair/z3 symbolic execution of gin_wrapper exception path and utils.augment_exception_message_and_reraise with symbolic payloads'),
 }
